@@ -713,6 +713,93 @@ func runC19(c *eng.Ctx) {
 	})
 
 	// ---- 10. a failed metadata leaf does not look like a successful (partial) one -----------------------------------------------
+	// ---- a real failure is never dressed as "not found" -----------------------------------------------------------------------------------
+	// (operators planned with NewPlanNodeWithIgnore have their not-found errors dropped by the stage: "this shard has no such
+	// series" is not a failure. Wrapping ANOTHER error - an I/O error of the index - in a not-found sentinel makes the shard's
+	// stage succeed and the leaf answer with the other shards only)
+	c.Rule("ERRFLOW", "query/operator{a not-found sentinel wraps no other error}", func() {
+		n := 0
+		for _, fn := range p.FuncsWithPrefix("query/operator.") {
+			k := 0
+			for _, b := range fn.Blocks {
+				for _, in := range b.Instrs {
+					cl, ok := in.(*ssa.Call)
+					if !ok || !eng.CallTo("fmt.Errorf")(p, in) || len(cl.Common().Args) < 2 {
+						continue
+					}
+					// the variadic arguments: stores into the backing array of the slice
+					var vals []ssa.Value
+					if sl, ok := cl.Common().Args[1].(*ssa.Slice); ok {
+						if al, ok := sl.X.(*ssa.Alloc); ok {
+							for _, ref := range *al.Referrers() {
+								if ia, ok := ref.(*ssa.IndexAddr); ok {
+									for _, r2 := range *ia.Referrers() {
+										if st, ok := r2.(*ssa.Store); ok {
+											vals = append(vals, st.Val)
+										}
+									}
+								}
+							}
+						}
+					}
+					sentinel, other := "", ""
+					for _, v := range vals {
+						if mi, ok := v.(*ssa.MakeInterface); ok {
+							v = mi.X
+						}
+						if ci, ok := v.(*ssa.ChangeInterface); ok {
+							v = ci.X
+						}
+						if u, ok := v.(*ssa.UnOp); ok && u.Op == token.MUL {
+							if g, isG := u.X.(*ssa.Global); isG {
+								if strings.Contains(g.Name(), "NotFound") || strings.Contains(g.Name(), "NotExist") {
+									sentinel = g.Name()
+								}
+								continue
+							}
+						}
+						if isErrorType(v.Type()) {
+							other = p.Desc(v)
+						}
+					}
+					if sentinel == "" {
+						continue
+					}
+					n++
+					k++
+					c.Check(other == "", fmt.Sprintf("sentinel-wraps-no-error@%s[%d]", p.FuncKey(fn), k), cl, fn,
+						"an error built around "+sentinel+" carries no other error value: what the callee reported as a failure stays a failure", "also formats the error "+other)
+				}
+			}
+		}
+		if n < 3 {
+			c.Undecided("expected >= 3 not-found errors built in query/operator, found %d", n)
+		}
+	})
+
+	// ---- the root side of the same convention: every counted answer is examined ------------------------------------------------------
+	// (the root's metadata context never reads ErrMsg: a failed leaf is recognised by its undecodable - empty - payload only. An
+	// answer that is counted (expectResults--) but not decoded, "nothing to merge", turns a failed stage into a successful partial
+	// result)
+	c.Rule("ERRFLOW", "query/context.MetadataContext.handleResponse{a counted answer is decoded or its error read}", func() {
+		const respT = "github.com/lindb/lindb/proto/gen/v1/common.TaskResponse"
+		f := c.Fn("query/context.MetadataContext.handleResponse")
+		dec := c.Some(f, eng.StoreField("query/context.baseTaskContext.expectResults", "query/context.MetadataContext.expectResults"), "ctx.expectResults--")
+		examined := func(in ssa.Instruction) bool {
+			if eng.AnyCallTo("github.com/lindb/common/pkg/encoding.JSONUnmarshal")(p, in) {
+				return true
+			}
+			return eng.LoadField(respT+".ErrMsg", "proto/gen/v1/common.TaskResponse.ErrMsg")(p, in)
+		}
+		for i, d := range dec {
+			_, skip := eng.PathExists(eng.PathQuery{Fn: f, After: d.Instr,
+				Target:  func(in ssa.Instruction) bool { _, ok := in.(*ssa.Return); return ok },
+				Blocked: examined})
+			c.Check(!skip, fmt.Sprintf("examined-on-every-path[%d]", i), d.Instr, f,
+				"after an answer has been counted, its payload is decoded (a decode failure is the only sign of a failed leaf) or its error message is read, on every path", "a return is reachable without either")
+		}
+	})
+
 	c.Rule("ERRFLOW", "query.leafTaskProcessor.processMetadataSuggest{an error answer carries no result payload}", func() {
 		const respT = "github.com/lindb/lindb/proto/gen/v1/common.TaskResponse"
 		root := c.Fn("query/context.MetadataContext.handleResponse")
